@@ -348,6 +348,10 @@ def binop(ex, op, a, b, fr, inplace=False, node=None):
             and b.ty.kind == "classmap":
         # user map | built-in table: for keys present in both the right operand wins
         return Val(Ty("classmap"), None, meta=dict(table=dict(b.meta["table"]), user=a))
+    if op == "BitOr" and a.ty.kind == "classmap" and (b.ty.kind in ("emptydict",) or (b.ty.kind == "ref" and b.ty.cls == "$ClassMap")):
+        # built-in table | user map: equal to the other order under the stated assumption that the user's keys
+        # are disjoint from the built-in ones (DESIGN 4.3); without it "the engine configured for a level" is ambiguous
+        return Val(Ty("classmap"), None, meta=dict(table=dict(a.meta["table"]), user=b))
     raise Unsupported(f"binary {op} on {a.ty}, {b.ty} at {src.loc(fr.fi, node) if node is not None else ''}")
 
 
